@@ -25,6 +25,13 @@ import time as _time
 import uuid as _uuid
 
 
+import contextvars
+
+# which simulated client (process) the currently running code belongs to; tasks and timer
+# handles inherit it through their context
+OWNER = contextvars.ContextVar("verif_owner", default=None)
+
+
 class Stuck(Exception):
     pass
 
@@ -137,15 +144,31 @@ class SimLoop(asyncio.SelectorEventLoop):
 
     def _mk_task(self, loop, coro, **kw):
         t = DetTask(coro, loop=loop, **kw)
-        self.tasks_by_owner.append((self.owner, t))
+        t._owner = OWNER.get()
+        self.tasks_by_owner.append((t._owner if t._owner is not None else self.owner, t))
         return t
 
     def call_at(self, when, callback, *args, context=None):
         h = super().call_at(when, callback, *args, context=context)
-        self.handles.append((self.owner, h))
+        o = OWNER.get()
+        self.handles.append((o if o is not None else self.owner, h))
         if len(self.handles) > 4096:
             self.handles = [(o, x) for o, x in self.handles if not x.cancelled() and x.when() >= self._vt]
         return h
+
+    def kill(self, owner):
+        """process death of a simulated client: its connections go dead first (nothing it does
+        while being torn down reaches the network), then all its tasks and timers are cancelled"""
+        if self.net is not None:
+            for tr in list(self.net.live):
+                if tr.owner == owner:
+                    tr.dead = True
+        for o, h in self.handles:
+            if o == owner and not h.cancelled():
+                h.cancel()
+        for o, t in self.tasks_by_owner:
+            if o == owner and not t.done():
+                t.cancel()
 
     def live_tasks(self, owner):
         return [t for o, t in self.tasks_by_owner if o == owner and not t.done()]
